@@ -49,7 +49,8 @@ ASSUMPTIONS = [
     "no byte corruption is injected: the property promises rejection only for structurally "
     "defective member sets",
 ]
-PROBES = ["opened_by_filename", "payload_over_8k_read_in_chunks",
+PROBES = ["two_packages_open_at_once", "other_client_opens_defective_package",
+          "iteration_abandoned_early", "opened_by_filename", "payload_over_8k_read_in_chunks",
           "parts_compressed_differently_read_alternately", "one_byte_chunks_while_control_requeried",
           "uncompressed_control_tar", "debian_binary_not_first", "defective_package_rejected",
           "two_streams_same_part_interleaved", "name_with_space", "nested_directory",
@@ -120,10 +121,14 @@ def generate(seed, run, tier):
              "order": rs.choice([[0, 1, 2], [0, 2, 1], [1, 0, 2], [2, 1, 0], [1, 2, 0]]),
              "extra": rs.choice([None, None, "_gpgorigin", "zz-extra"]),
              "defect": rs.choice(DEFECTS), "md5": rs.random() < 0.9,
-             "open": rs.choice(["fileobj", "fileobj", "fileobj", "filename"])}
+             "open": rs.choice(["fileobj", "fileobj", "fileobj", "filename"]),
+             # a second, different package opened by another client while the first one is
+             # in use (well-formed, or defective and therefore rejected)
+             "other": rs.choice([None, None, "good", "good", "no_data", "no_control"])}
     steps = []
     nfiles = max(len(files), 1)
     w = {"debcontrol": 2, "scripts": 1, "md5sums": 2, "has": 3, "content": 4, "names": 1,
+         "iter_partial": rs.choice([0, 1, 3]), "open_other": rs.choice([0, 1, 2]),
          "open_stream": rs.choice([0, 2, 4]), "read_stream": rs.choice([0, 4, 10]),
          "missing": 1, "cget": 2}
     kinds = [k for k, v in w.items() for _ in range(v)]
@@ -144,8 +149,9 @@ def generate(seed, run, tier):
             st["name"] = rq.choice(["control", "md5sums"] + SCRIPTS)
             st["sp"] = rq.randrange(3)
             st["stream"] = rq.random() < 0.3
-        elif k == "names":
+        elif k in ("names", "iter_partial"):
             st["part"] = rq.choice(["data", "control"])
+            st["k"] = rq.choice([1, 1, 2, 3])
         steps.append(st)
     return {"world": world, "trace": steps}
 
@@ -257,6 +263,31 @@ def build(world):
     return blob, model
 
 
+def _data_order(model):
+    """Names of the data tarball in the order they were added (directories first time seen)."""
+    out = []
+    seen = set()
+    for n, _ in model["files"]:
+        parts = n.split("/")
+        for i in range(1, len(parts)):
+            d = "/".join(parts[:i])
+            if d not in seen:
+                seen.add(d)
+                out.append("./" + d)
+        out.append("./" + n)
+    return out
+
+
+def _control_order(model):
+    names = ["control"]
+    if model["has_md5"]:
+        names.append("md5sums")
+    for k in SCRIPTS:
+        if k in model["scripts"]:
+            names.append(k)
+    return names
+
+
 SPELL = [lambda n: n, lambda n: "./" + n, lambda n: "/" + n]
 
 
@@ -319,6 +350,13 @@ def execute(case):
     if deb.version != b"2.0":
         raise Violation("version-differs", "open", {"got": deb.version})
     streams = []          # dicts(f, data, pos, part, reads)
+    others = []
+    other_world = {"fields": [["Package", "other-pkg"], ["Version", "9.9"], ["Architecture", "all"]],
+                   "scripts": {"postrm": enc_bytes(b"#!/bin/sh\nexit 0\n")},
+                   "files": [{"name": "usr/share/other/file", "data": enc_bytes(b"other data\n")}],
+                   "tarfmt": "gnu", "ccomp": "gz", "dcomp": "xz", "order": [0, 1, 2],
+                   "extra": None, "md5": True,
+                   "defect": None if world.get("other") == "good" else world.get("other")}
     inter = []
     touched = set()
     last_part = None
@@ -407,6 +445,42 @@ def execute(case):
                 part = "data"
                 for sp in ("no/such/file", "./no/such/file", "/usr"[:1] + "nope"):
                     expect(si, op, _call(deb.data.has_file, sp), False, name=sp)
+            elif op == "open_other":
+                if not world.get("other") or len(others) >= 2:
+                    continue
+                oblob, omodel = build(other_world)
+                r2 = _call(debfile.DebFile, fileobj=SimFile(oblob))
+                if other_world["defect"]:
+                    if r2[0] != "exc" or r2[1] != "DebError":
+                        raise Violation("defective-package-not-rejected-with-DebError", "open",
+                                        {"step": si, "defect": other_world["defect"]})
+                    out.probe("other_client_opens_defective_package")
+                else:
+                    if r2[0] != "ok":
+                        raise Violation("well-formed-package-rejected", "open",
+                                        {"step": si, "error": r2[1:]})
+                    others.append(r2[1])
+                    got = _call(lambda: [[k_, v_] for k_, v_ in r2[1].debcontrol().items()])
+                    expect(si, "debcontrol", got, omodel["fields"], which="other package")
+                    out.probe("two_packages_open_at_once")
+                part = "other"
+            elif op == "iter_partial":
+                part = st.get("part", "data")
+                k = st.get("k", 1)
+                p_ = deb.data if part == "data" else deb.control
+                order = (["."] + [n_ for n_ in _data_order(model)]) if part == "data" else \
+                    ["."] + ["./" + n_ for n_ in _control_order(model)]
+
+                def take():
+                    it = iter(p_)
+                    res_ = []
+                    for _ in range(min(k, len(order))):
+                        x = next(it)
+                        res_.append(x.rstrip("/") if x != "./" else ".")
+                    return res_
+                got = _call(take)
+                expect(si, op, got, order[:min(k, len(order))])
+                out.probe("iteration_abandoned_early")
             elif op == "names":
                 part = st.get("part", "data")
                 if part == "data":
@@ -444,7 +518,8 @@ def execute(case):
                 continue
             out.steps += 1
             inter.append((part, op))
-            touched.add(part)
+            if part != "other":
+                touched.add(part)
             if last_part and part and last_part != part and world["ccomp"] != world["dcomp"]:
                 out.probe("parts_compressed_differently_read_alternately")
             last_part = part
@@ -463,10 +538,11 @@ def execute(case):
                 s["f"].close()
             except Exception:   # pylint: disable=broad-except
                 pass
-        try:
-            deb.close()
-        except Exception:   # pylint: disable=broad-except
-            pass
+        for d_ in [deb] + others:
+            try:
+                d_.close()
+            except Exception:   # pylint: disable=broad-except
+                pass
     out.count("shared_fileobj_reads", shared.reads)
     out.count("shared_fileobj_seeks", shared.seeks)
     out.digest = log.digest()
